@@ -88,6 +88,10 @@ Proof.
     rewrite Forall_forall in Hsecs. specialize (Hsecs s Hs). apply N.ltb_lt in Hlt. lia. }
   rewrite E1. destruct (N.ltb_spec (l_size L) (l_sum L)); [lia|].
   destruct (N.ltb_spec (l_size L - l_sum L) (l_certsize L)); [lia|].
+  assert (E8 : negb (l_certsize L =? 0) && (l_size L <? l_va L + l_certsize L) = false).
+  { destruct (N.eqb_spec (l_certsize L) 0); [reflexivity|]. cbn [negb andb].
+    destruct (N.ltb_spec (l_size L) (l_va L + l_certsize L)); [lia|reflexivity]. }
+  rewrite E8.
   eexists. split; [reflexivity|]. cbn [pe_L pe_img]. repeat split.
   unfold hash_content. cbn [pe_L pe_img].
   assert (E2 : secs_readable L = true).
